@@ -73,6 +73,7 @@ pub struct G {
     pub carousel_turns: u64,
     pub paced_packets_delayed: u64,
     pub triggers_accepted: u64,
+    pub fdt_reemissions: u64,
     pub outcomes: std::collections::BTreeSet<u64>,
 }
 
@@ -262,6 +263,27 @@ pub fn run_case(case: &Case, g: &mut G) -> Option<(String, String)> {
                 }
             }
         }
+        // the FDT's own carousel (DelayBetweenTransfers 1 s): an instance is never re-emitted earlier
+        {
+            let mut last_emission: std::collections::BTreeMap<u32, u64> = Default::default();
+            for it in sys.log.iter() {
+                if let Item::Pkt(p) = it {
+                    if p.toi == 0 {
+                        if let Some(id) = p.fdt_id {
+                            if let Some(prev) = last_emission.get(&id) {
+                                if p.t_ms > *prev && p.t_ms < *prev + 1000 {
+                                    return Some(("C14/fdt-carousel-too-early".into(), format!("FDT instance {} re-emitted at t={}ms, previous emission at t={}ms, carousel delay 1000 ms", id, p.t_ms, prev)));
+                                }
+                                if p.t_ms > *prev {
+                                    g.fdt_reemissions += 1;
+                                }
+                            }
+                            last_emission.insert(id, p.t_ms);
+                        }
+                    }
+                }
+            }
+        }
         if let Some(gt) = gate_ms {
             if gt > 0 {
                 g.gated_by_start += 1;
@@ -380,6 +402,7 @@ pub fn run(thorough: bool) -> i32 {
         g.carousel_turns += gg.carousel_turns;
         g.paced_packets_delayed += gg.paced_packets_delayed;
         g.triggers_accepted += gg.triggers_accepted;
+        g.fdt_reemissions += gg.fdt_reemissions;
         g.outcomes.extend(gg.outcomes.iter());
         for (key, (what, case)) in found {
             rep.add(Violation { key, what, case: json!({"check": "schedule", "case": serde_json::to_value(&case).unwrap()}) });
@@ -399,6 +422,7 @@ pub fn run(thorough: bool) -> i32 {
     rep.guard("carousel_turns_inside_the_horizon", g.carousel_turns);
     rep.guard("paced_packets_sent_after_the_first_instant", g.paced_packets_delayed);
     rep.guard("triggers_accepted", g.triggers_accepted);
+    rep.guard("fdt_instance_reemissions", g.fdt_reemissions);
     rep.sample(json!({"cfg": cfgs[7], "schedule": [0, 1, 5, 0, 2], "trigger": null, "meaning": "clock advance in ticks of 250 ms before each poll (drain until None)"}));
     rep.assume("carousel clause is checked literally for max_transfer_count = 1 (DESIGN §5); an accepted trigger_transfer_at resets the carousel reference and replaces the start gate by its timestamp");
     rep.assume("the trigger deviation is crossed with the fixed sub-grid of schedules whose code is a multiple of 7, all other dimensions are full products");
